@@ -37,8 +37,22 @@ def tgt(sp, t, cls):
     return (sch + "." if sch else "") + nm
 
 
+# column names that are statement-opening words of SQL scripts but no grammar keywords: chosen instead of a, b, c .. by every odd seed
+WORD_NAMES = {"a": "begin", "b": "end", "c": "commit", "d": "rollback", "e": "merge", "f": "truncate", "g": "revoke", "r": "declare", "n": "work"}
+
+
 def col(sp, c):
-    return sp["col"](c[0], c[1])
+    base = WORD_NAMES.get(c[0], c[0]) if sp["seed"] % 2 == 1 else c[0]
+    return sp["col"](base, c[1])
+
+
+def multiline(sp, idx):
+    """every second ALTER / CREATE INDEX statement of an odd seed is written over several lines, each name first on its line"""
+    return (sp["seed"] + idx) % 2 == 1
+
+
+def lst(sp, idx, items):
+    return "(\n  " + ",\n  ".join(items) + "\n)" if multiline(sp, idx) else "(" + ", ".join(items) + ")"
 
 
 def val(v, cn):
@@ -55,33 +69,35 @@ def render_stmt(sp, s, idx=0):
     T = tgt(sp, s["t"], s["sp"])
     cn = f"CONSTRAINT {s['cn']} " if s["cn"] and k != "index" else ""
     cs = ", ".join(col(sp, c) for c in s["cs"]) if k != "index" else ""
+    csl = lst(sp, idx, [col(sp, c) for c in s["cs"]]) if k != "index" else ""
+    nl = "\n  " if multiline(sp, idx) else " "
     if k == "addcol":
         opt = {"": "", "ref": f" REFERENCES {REF[0]}.{REF[1]} (x)", "dflt": f" DEFAULT {VALUES['v1']}", "uniq": " UNIQUE"}[s["x"]]
-        return f"ALTER TABLE {T} ADD {col(sp, s['c'])} int{opt};"
+        return f"ALTER TABLE {T} ADD{nl}{col(sp, s['c'])} int{opt};"
     # a trailing option word (legal in several dialects) after a SCHEMA-QUALIFIED statement; every third rendering
     tail = lambda w: (" " + w) if (s["t"][0] and (sp["seed"] + idx) % 3 == 0) else ""  # noqa
     if k == "drop":
-        return f"ALTER TABLE {T} DROP COLUMN {col(sp, s['c'])}{tail('CASCADE')};"
+        return f"ALTER TABLE {T} DROP COLUMN{nl}{col(sp, s['c'])}{tail('CASCADE')};"
     if k == "rename":
-        return f"ALTER TABLE {T} RENAME COLUMN {col(sp, s['c'])} TO {col(sp, (s['x'], 'same'))}{tail('CASCADE')};"
+        return f"ALTER TABLE {T}{nl}RENAME COLUMN{nl}{col(sp, s['c'])} TO{nl}{col(sp, (s['x'], 'same'))}{tail('CASCADE')};"
     if k == "modify":
         form = MODIFY_FORMS[(sp["seed"] + idx) % len(MODIFY_FORMS)]
         return f"ALTER TABLE {T} " + form.format(c=col(sp, s["c"])) + ";"
     if k == "unique":
-        return f"ALTER TABLE {T} ADD {cn}UNIQUE ({cs}){tail('ENABLE') if cn else ''};"
+        return f"ALTER TABLE {T} ADD {cn}UNIQUE {csl}{tail('ENABLE') if cn else ''};"
     if k == "pk":
-        return f"ALTER TABLE {T} ADD {cn}PRIMARY KEY ({cs});"
+        return f"ALTER TABLE {T} ADD {cn}PRIMARY KEY {csl};"
     if k == "default":
         return f"ALTER TABLE {T} ADD {cn}DEFAULT {val(s['x'], s['cn'])} FOR {cs};"
     if k == "check":
         return f"ALTER TABLE {T} ADD {cn}CHECK {CHECKS[s['x']][0]};"
     if k == "fk":
         refs = ", ".join(("x", "y", "z")[: len(s["cs"])])
-        return f"ALTER TABLE {T} ADD {cn}FOREIGN KEY ({cs}) REFERENCES {REF[0]}.{REF[1]} ({refs}){tail('ENABLE')};"
+        return f"ALTER TABLE {T} ADD {cn}FOREIGN KEY {csl} REFERENCES {REF[0]}.{REF[1]} ({refs}){tail('ENABLE')};"
     if k == "index":
-        cols = ", ".join(col(sp, c) + (" " + d if d else "") for c, d in s["cs"])
+        cols = lst(sp, idx, [col(sp, c) + (" " + d if d else "") for c, d in s["cs"]])
         u = "UNIQUE " if s["x"] == "unique" else ""
-        return f"CREATE {u}INDEX {s['cn']} ON {T} ({cols});"
+        return f"CREATE {u}INDEX {s['cn']} ON {T} {cols};"
     raise ValueError(k)
 
 
@@ -106,7 +122,7 @@ def expected(beh, sp):
             "sch": sp["tab"](t[0], "same", "S") if t[0] else "",
             "nm": sp["tab"](t[1], "same", "T"),
             "cols": [_ecol(sp, c) for c in e["cols"]],
-            "acols": [{"n": col(sp, a["n"]), "fk": a["fk"], "cn": a["cn"], "rc": a["rc"]} for a in e["acols"]],
+            "acols": [{"n": col(sp, a["n"]), "fk": a["fk"], "cn": a["cn"], "rc": a["rc"], "rt": "ok" if a["fk"] else ""} for a in e["acols"]],
             "uniques": [{"cn": u["cn"], "cs": [col(sp, c) for c in u["cs"]]} for u in e["uniques"]],
             "pks": [{"cn": u["cn"], "cs": [col(sp, c) for c in u["cs"]]} for u in e["pks"]],
             "defaults": [{"cn": u["cn"], "cs": [col(sp, c) for c in u["cs"]], "v": val(u["v"], u["cn"])} for u in e["defaults"]],
@@ -147,7 +163,12 @@ def project_entity(e):
         "cols": [_pcol(c) for c in e["columns"]],
         "acols": [{"n": a.get("name"), "fk": "type" not in a and bool(a.get("references")),
                    "cn": a.get("constraint_name") or "" if "type" not in a else "",
-                   "rc": (a.get("references") or {}).get("column", "") if "type" not in a else ""} for a in al.get("columns", [])],
+                   "rc": (a.get("references") or {}).get("column", "") if "type" not in a else "",
+                   # the referenced table of an ALTER .. FOREIGN KEY, whole (schema / dataset as declared on EVERY column of a composite key)
+                   "rt": ("" if "type" in a or not a.get("references") else
+                          ("ok" if (a["references"].get("table"), a["references"].get("schema", a["references"].get("dataset"))) == (REF[1], REF[0])
+                           else repr((a["references"].get("table"), a["references"].get("schema", a["references"].get("dataset")))))) }
+                  for a in al.get("columns", [])],
         "uniques": [{"cn": u.get("constraint_name") or "", "cs": u["columns"]} for u in al.get("uniques", [])],
         "pks": [{"cn": u.get("constraint_name") or "", "cs": u["columns"]} for u in al.get("primary_keys", [])],
         "defaults": [{"cn": u.get("constraint_name") or "", "cs": u["columns"], "v": str(u["value"])} for u in al.get("defaults", [])],
